@@ -73,7 +73,8 @@ def explore(run):
     with minibase.Scratch() as sc:
         n = 600 if thorough else 70
         for i in range(n):
-            g = D.gen_graph(rng, hostile=rng.random() < 0.4, closed=False, values_ok=False)
+            many = rng.random() < 0.1          # documents with ten or more NamespaceUris (two-digit local indices)
+            g = D.gen_graph(rng, hostile=rng.random() < 0.4, closed=False, values_ok=False, features={"many_ns": many}, n_nodes=2 if many else None)
             lseed = rng.getrandbits(32)
             files = D.serialise(random.Random(lseed), g, uri_rng=random.Random(0))
             all_uris = [UA] + g["uris"]
